@@ -11,10 +11,12 @@ import (
 	"time"
 
 	"github.com/elnosh/gonuts/cashu"
+	"github.com/elnosh/gonuts/cashu/nuts/nut03"
 	"github.com/elnosh/gonuts/cashu/nuts/nut10"
 	"github.com/elnosh/gonuts/cashu/nuts/nut14"
 	"pgregory.net/rapid"
 
+	"verif/harness/httpx"
 	"verif/harness/lnmodel"
 	"verif/harness/lockgen"
 	"verif/harness/rec"
@@ -70,10 +72,20 @@ func genPreimage(t *rapid.T, c lockgen.Config) (string, string) {
 
 func propDirect(t *rapid.T) {
 	c := lockgen.GenConfig(t, "HTLC")
+	// one case in five is all about counting distinct signers: threshold over a key list that names a key twice, right
+	// preimage, well-formed witness
+	focus := rapid.IntRange(0, 4).Draw(t, "threshold_focus") == 0
+	if focus {
+		c = lockgen.FocusThreshold(t, c)
+		rec.Class("direct_threshold_focus")
+	}
 	secret := c.Secret()
 	elems, _ := lockgen.GenWitnessElems(t, c, candidateKeys, "sig")
 	pre, pkind := genPreimage(t, c)
 	shape := rapid.SampledFrom([]string{"object", "object", "object", "object", "object", "object", "none", "empty_object", "garbage", "null_sigs"}).Draw(t, "witness_shape")
+	if focus {
+		pre, pkind, shape = c.Preimage, "right", "object"
+	}
 	sigs := lockgen.Render(elems, []byte(secret))
 	witness := lockgen.WitnessJSON(shape, sigs, pre, true)
 	proof := cashu.Proof{Amount: 1, Id: "00c13c13c13c13c1", Secret: secret, C: "02" + strings.Repeat("11", 32), Witness: witness}
@@ -176,7 +188,24 @@ func TestHelperInputs(t *testing.T) { rapid.Check(t, propHelperInputs) }
 
 // end to end through Mint.Swap with really minted HTLC proofs, incl. SIG_ALL and the output helper
 func propSwap(t *rapid.T) {
-	w := world.New(t, world.Config{CaseSeed: rapid.Uint64().Draw(t, "case_seed"), SeedIdx: rapid.IntRange(0, 5).Draw(t, "mint_seed"), FeeMode: lnmodel.FeeZero})
+	// one case in three sends the swap through the HTTP handler (with its response cache) instead of calling Mint.Swap
+	viaHTTP := rapid.IntRange(0, 2).Draw(t, "via_http") == 0
+	w := world.New(t, world.Config{CaseSeed: rapid.Uint64().Draw(t, "case_seed"), SeedIdx: rapid.IntRange(0, 5).Draw(t, "mint_seed"), FeeMode: lnmodel.FeeZero, WithServer: viaHTTP})
+	swap := func(inputs cashu.Proofs, msgs cashu.BlindedMessages) error {
+		if !viaHTTP {
+			_, err := w.Mint.Swap(inputs, msgs)
+			return err
+		}
+		body, _ := json.Marshal(nut03.PostSwapRequest{Inputs: inputs, Outputs: msgs})
+		r := httpx.Do(w.Handler(), "POST", "/v1/swap", body, "application/json")
+		if r.Panic != nil {
+			violate(t, "e2e|http_swap_panic", "%v\n%s", r.Panic, r.Stack[:min(len(r.Stack), 1200)])
+		}
+		if r.Status == 200 {
+			return nil
+		}
+		return fmt.Errorf("HTTP %d %s", r.Status, r.Body)
+	}
 	defer w.Close()
 	caseKind := rapid.SampledFrom([]string{"helper", "helper", "random", "random", "tamper_output", "tamper_output"}).Draw(t, "case_kind")
 	// tamper_output: everything as the helpers produce it for SIG_ALL, several outputs, one output's witness damaged
@@ -309,8 +338,37 @@ func propSwap(t *rapid.T) {
 		ows = append(ows, m.Witness)
 	}
 	rec.Eval()
-	_, err = w.Mint.Swap(inputs, msgs)
+	err = swap(inputs, msgs)
 	accepted := err == nil
+	if viaHTTP {
+		rec.Class("e2e_swap_via_http")
+	}
+	if accepted && viaHTTP {
+		// the same inputs and outputs once more with other witnesses (no preimage, a wrong one, none at all): the sender
+		// does not know the preimage and the inputs are spent - only a refusal is right, whatever the handler remembers
+		again := append(cashu.Proofs{}, inputs...)
+		how := rapid.SampledFrom([]string{"witness_dropped", "wrong_preimage", "witness_empty_object"}).Draw(t, "replay_witness")
+		changed := false
+		for i := range again {
+			if ref.ParseLock(again[i].Secret).IsLock {
+				switch how {
+				case "witness_dropped":
+					again[i].Witness = ""
+				case "wrong_preimage":
+					again[i].Witness = lockgen.WitnessJSON("object", nil, "00"+c.Preimage, true)
+				case "witness_empty_object":
+					again[i].Witness = "{}"
+				}
+				changed = changed || again[i].Witness != inputs[i].Witness
+			}
+		}
+		if changed {
+			rec.Class("e2e_http_replay_" + how)
+			if err2 := swap(again, msgs); err2 == nil {
+				violate(t, "e2e|http_replay_with_other_witness_accepted|"+how, "the swap of %v was accepted, then the same inputs and outputs with %s were answered 200 again", secrets, how)
+			}
+		}
+	}
 	anySA, necSA, whySA := ref.EvalSwapSigAll(secrets, bs, ows, lockgen.Verify)
 	cls := fmt.Sprintf("e2e|%s|%s|locked=%d|plain=%d|outputs=%s/%d", caseKind, configClass(c), nLocked, nPlain, outMode, len(msgs))
 	rec.NonTrivial(cls + fmt.Sprint(perm))
